@@ -44,6 +44,13 @@ class Obligation:
                     self.verdict = HOLDS
             self.ctx._done(self)
             return False
+        from .terms import BudgetExceeded
+        if issubclass(et, BudgetExceeded):
+            if self.verdict != VIOLATED:
+                self.verdict = UNDECIDED
+            self.details.append('analysis budget: %s' % ev)
+            self.ctx._done(self)
+            return True
         if issubclass(et, AnalysisError):
             if self.verdict != VIOLATED:
                 self.verdict = UNDECIDED
